@@ -2,7 +2,7 @@
 Model = specification for the padding removers of cp_rsa_dec (property C06): the integer-level scans of Model/Cp.lean
 (`padBasicDec`, `padPkcs1Dec`: shifts by whole octets, `m_len` / `p_len` bookkeeping as in pad_basic / pad_pkcs1 of
 src/cp/relic_cp_rsa.c) decide and return exactly what the byte-level decoders of Spec/Cp.lean do, for EVERY encoded message
-of the modulus length — except that pad_pkcs1 does not enforce |PS| ≥ 8 and refuses the empty message (stated precisely).
+of the modulus length (pad_pkcs1 additionally refuses the empty message, which the encryption side does not admit).
 -/
 import RelicVerif.Lemmas.PadC06
 import RelicVerif.Model.Cp
@@ -194,6 +194,44 @@ theorem pkcs1_aux (rest : Bytes) : ∀ (pre : Bytes) (f : Nat), rest ≠ [] → 
           have := ih (pre ++ [x]) f (by simp) (by simpa using hf)
           exact ⟨Nat.le_succ_of_le this.1, this.2⟩
 
+/-- pad_pkcs1 (RSA_DEC) without the final test on the padding length: the scan itself -/
+def padPkcs1DecLax (m k : Nat) : Option (Nat × Nat) :=
+  if m / 256 ^ (k - 1) ≠ 0 then none else
+  if byteAt m (k - 2) ≠ 2 then none else
+  let ml := pkcs1Scan m k (k - 2)
+  if ml > 0 then some (m % 256 ^ ml, k - ml) else none
+
+/-- the model is the scan followed by the test |PS| = k − 3 − m_len ≥ 8, i.e. p_len ≥ 11 -/
+theorem padPkcs1Dec_eq_lax (m k : Nat) :
+    padPkcs1Dec m k = (padPkcs1DecLax m k).bind fun r => if 11 ≤ r.2 then some r else none := by
+  unfold padPkcs1Dec padPkcs1DecLax
+  by_cases h1 : m / 256 ^ (k - 1) ≠ 0
+  · simp [h1]
+  · by_cases h2 : byteAt m (k - 2) ≠ 2
+    · simp [h1, h2]
+    · simp only [if_neg h1, if_neg h2]
+      generalize pkcs1Scan m k (k - 2) = ml
+      by_cases h3 : ml > 0
+      · by_cases h4 : k - 3 - ml ≥ 8
+        · have h5 : 11 ≤ k - ml := by omega
+          simp [h3, h4, h5]
+        · have h5 : ¬ 11 ≤ k - ml := by omega
+          simp [h3, h4, h5]
+      · simp [h3]
+
+theorem padPkcs1DecLax_snd_le (m k : Nat) (r : Nat × Nat) (h : padPkcs1DecLax m k = some r) : r.2 ≤ k := by
+  unfold padPkcs1DecLax at h
+  split at h
+  · simp at h
+  · split at h
+    · simp at h
+    · simp only at h
+      split at h
+      · have := Option.some.inj h
+        rw [← this]
+        exact Nat.sub_le _ _
+      · simp at h
+
 /-- the strict decoder is the lax one plus the |PS| ≥ 8 test -/
 theorem pkcs1Unpad_eq_lax (em : Bytes) :
     pkcs1Unpad em = (pkcs1UnpadLax em).bind fun m => if em.length < m.length + 11 then none else some m := by
@@ -260,9 +298,9 @@ theorem padBasicDec_eq (k : Nat) (em : Bytes) (hk : 2 ≤ k) (hlen : em.length =
     · have e1 : y.toNat ≠ 0 := fun h => hy ((u8_eq_zero y).1 h)
       rw [if_pos e1, if_pos hy, Option.map_none]
 
-/-- pad_pkcs1 (RSA_DEC) = the lax PKCS#1 v1.5 decoder restricted to non-empty messages, for every k-octet string, k ≥ 3 -/
-theorem padPkcs1Dec_eq (k : Nat) (em : Bytes) (hk : 3 ≤ k) (hlen : em.length = k) :
-    (padPkcs1Dec (os2ip em) k).map (fun r => i2osp r.1 (k - r.2))
+/-- the scan of pad_pkcs1 = the lax PKCS#1 v1.5 separation restricted to non-empty messages, for every k-octet string, k ≥ 3 -/
+theorem padPkcs1DecLax_eq (k : Nat) (em : Bytes) (hk : 3 ≤ k) (hlen : em.length = k) :
+    (padPkcs1DecLax (os2ip em) k).map (fun r => i2osp r.1 (k - r.2))
       = (pkcs1UnpadLax em).bind fun m => if m.isEmpty then none else some m := by
   subst hlen
   cases em with
@@ -276,7 +314,7 @@ theorem padPkcs1Dec_eq (k : Nat) (em : Bytes) (hk : 3 ≤ k) (hlen : em.length =
       have hk2 : (y :: t :: rest).length - 2 = rest.length := by simp
       have hbt : byteAt (os2ip (y :: t :: rest)) rest.length = t.toNat := byteAt_mid [y] rest t
       rw [pkcs1UnpadLax_cons]
-      unfold padPkcs1Dec
+      unfold padPkcs1DecLax
       rw [hk1, hk2, os2ip_cons_div, hbt]
       by_cases hy : y = 0
       · by_cases ht : t = 2
@@ -303,25 +341,62 @@ theorem padPkcs1Dec_eq (k : Nat) (em : Bytes) (hk : 3 ≤ k) (hlen : em.length =
       · have e1 : y.toNat ≠ 0 := fun h => hy ((u8_eq_zero y).1 h)
         rw [if_pos e1, if_pos (Or.inl hy)]; rfl
 
-/-- consequently: whenever the standard's decoder accepts a non-empty message, pad_pkcs1 returns exactly it -/
-theorem padPkcs1Dec_complete (k : Nat) (em m : Bytes) (hk : 3 ≤ k) (hlen : em.length = k) (hm : m ≠ [])
-    (h : pkcs1Unpad em = some m) :
-    (padPkcs1Dec (os2ip em) k).map (fun r => i2osp r.1 (k - r.2)) = some m := by
-  rw [padPkcs1Dec_eq k em hk hlen]
-  have hl := pkcs1Unpad_eq_lax em
-  rw [h] at hl
-  cases hlax : pkcs1UnpadLax em with
-  | none => rw [hlax] at hl; simp at hl
-  | some m' =>
-    rw [hlax, Option.bind_some] at hl
-    by_cases hc : em.length < m'.length + 11
-    · rw [if_pos hc] at hl; simp at hl
-    · rw [if_neg hc] at hl
-      have hmm : m = m' := Option.some.inj hl
-      subst hmm
+/-- pad_pkcs1 (RSA_DEC) = EME-PKCS1-v1_5 decoding (RFC 8017 §7.2.2 step 3, incl. |PS| ≥ 8) restricted to non-empty messages,
+    for every k-octet string, k ≥ 3: same decision, same message octets -/
+theorem padPkcs1Dec_eq (k : Nat) (em : Bytes) (hk : 3 ≤ k) (hlen : em.length = k) :
+    (padPkcs1Dec (os2ip em) k).map (fun r => i2osp r.1 (k - r.2))
+      = (pkcs1Unpad em).bind fun m => if m.isEmpty then none else some m := by
+  have hlaxeq := padPkcs1DecLax_eq k em hk hlen
+  rw [padPkcs1Dec_eq_lax, pkcs1Unpad_eq_lax]
+  cases hL : padPkcs1DecLax (os2ip em) k with
+  | none =>
+    rw [hL, Option.map_none] at hlaxeq
+    rw [Option.bind_none, Option.map_none]
+    cases hlax : pkcs1UnpadLax em with
+    | none => rfl
+    | some m' =>
+      rw [hlax, Option.bind_some] at hlaxeq
       rw [Option.bind_some]
-      cases m with
-      | nil => exact absurd rfl hm
-      | cons a b => rfl
+      cases m' with
+      | nil =>
+        by_cases hc : em.length < ([] : Bytes).length + 11
+        · rw [if_pos hc, Option.bind_none]
+        · rw [if_neg hc, Option.bind_some]; rfl
+      | cons a b => simp at hlaxeq
+  | some r =>
+    have hle := padPkcs1DecLax_snd_le _ _ r hL
+    rw [hL, Option.map_some] at hlaxeq
+    rw [Option.bind_some]
+    cases hlax : pkcs1UnpadLax em with
+    | none => rw [hlax] at hlaxeq; simp at hlaxeq
+    | some m' =>
+      rw [hlax, Option.bind_some] at hlaxeq
+      rw [Option.bind_some]
+      cases m' with
+      | nil => simp at hlaxeq
+      | cons a b =>
+        have hm : i2osp r.1 (k - r.2) = a :: b := by simpa using hlaxeq
+        have hml : (a :: b).length = k - r.2 := by rw [← hm, PadC06.i2osp_length]
+        by_cases h11 : 11 ≤ r.2
+        · have hc : ¬ em.length < (a :: b).length + 11 := by rw [hml, hlen]; omega
+          rw [if_pos h11, if_neg hc, Option.map_some, Option.bind_some, hm]; rfl
+        · have hc : em.length < (a :: b).length + 11 := by rw [hml, hlen]; omega
+          rw [if_neg h11, if_pos hc, Option.map_none, Option.bind_none]
+
+/-- consequently: whenever the standard's decoder accepts a non-empty message, pad_pkcs1 returns exactly it, and whatever
+    pad_pkcs1 returns the standard's decoder accepts -/
+theorem padPkcs1Dec_complete (k : Nat) (em m : Bytes) (hk : 3 ≤ k) (hlen : em.length = k) (hm : m ≠ []) :
+    pkcs1Unpad em = some m ↔ (padPkcs1Dec (os2ip em) k).map (fun r => i2osp r.1 (k - r.2)) = some m := by
+  rw [padPkcs1Dec_eq k em hk hlen]
+  cases hU : pkcs1Unpad em with
+  | none => simp
+  | some m' =>
+    rw [Option.bind_some]
+    cases m' with
+    | nil =>
+      constructor
+      · intro h; exact absurd (Option.some.inj h).symm hm
+      · intro h; simp at h
+    | cons a b => simp
 
 end Relic.Lemmas.PadModelC06
